@@ -26,6 +26,15 @@
  * trailing zero bytes trimmed>`.  Bit numbers are biased to bits_used, 8*array_size (growth across BV_CHUNK_SIZE, several chunks), negative.
  * The Lean side recomputes them with the hand model AND with the functions translated from the C text (` GEN=` on a difference).
  * Oracle: a shadow array with the value of every bit.  Keys: bv-set-status, bv-get-wrong-bit, bv-find-not-lowest-zero, bv-null-accepted.
+ * Unit level 2 (end of every case, function-level Tie A of hfiledd.c: Hnewref / Htagnewref / the DD-block codec loops of HTPsync / HTPstart):
+ * the descriptors of the first DD blocks are copied out of filerec_t before the final Hclose; afterwards the bytes of those blocks are read back
+ * from the file with stdio (`T dd ublk enc <tag.ref.off.len,...> => <hex>`: what the REAL HTPsync / HTIupdate_dd put on disk), the file is
+ * opened again (the REAL HTPstart parses the blocks) and the in-memory records and maxref are printed against the bytes
+ * (`T dd ublk dec <maxref of the file if it has one block, else -1> <hex> => <tag.ref.off.len,...> <maxref or -1>`).  On that open file maxref is
+ * then set directly in filerec_t to 65533 and Hnewref is called four times, at and across the 65535 limit
+ * (`T dd uref newref <maxref before> <refs in use, csv> => <ret> <maxref after>`), and Htagnewref is called for the tags of the file
+ * (`T dd uref tagnewref <tag> <refs of its base tag in block order, csv> => <ret>`).  The Lean side answers with the hand model and runs the
+ * functions translated from the C text on the same inputs (` GEN=` on a difference / ub / oof).  Keys: dd-unit-short-read.
  * argv[4] (optional): six 0/1 digits = which fixes the model should assume (sent as `T dd cfg <bits>`), default = as is.
  */
 #include "hdf.h"
@@ -723,6 +732,102 @@ static void bv_phase(void)
     bv_delete(b);
 }
 
+/* ---- unit level 2: Hnewref / Htagnewref / the DD-block codec loops, on the file of the case ---- */
+#define UB_MAXBLK 3
+#define UB_MAXDD 40
+typedef struct { int32 myoff; int ndds; dd_t dd[UB_MAXDD]; } ublk_t;
+static ublk_t ublk[UB_MAXBLK];
+static int n_ublk, n_allblk;
+static long n_ublk_lines, n_uref_lines;
+static void unit_snapshot(void)
+{
+    n_ublk = 0; n_allblk = 0;
+    for (ddblock_t *b = frec()->ddhead; b; b = b->next) {
+        n_allblk++;
+        if (n_ublk < UB_MAXBLK && b->ndds > 0 && b->ndds <= UB_MAXDD) {
+            ublk[n_ublk].myoff = b->myoffset; ublk[n_ublk].ndds = b->ndds;
+            memcpy(ublk[n_ublk].dd, b->ddlist, (size_t)b->ndds * sizeof(dd_t));
+            n_ublk++;
+        }
+    }
+}
+static void print_dds(const dd_t *d, int n)
+{
+    if (n == 0) printf("-");
+    for (int i = 0; i < n; i++) printf("%s%u.%u.%d.%d", i ? "," : "", (unsigned)d[i].tag, (unsigned)d[i].ref, (int)d[i].offset, (int)d[i].length);
+}
+static void unit_phase(void)
+{
+    static uint8 raw[UB_MAXBLK][UB_MAXDD * 12];
+    if (n_ublk == 0) return;
+    FILE *f = fopen(fname, "rb");
+    if (!f) return;
+    for (int b = 0; b < n_ublk; b++) {
+        size_t want = (size_t)ublk[b].ndds * 12;
+        if (fseek(f, (long)ublk[b].myoff + 6, SEEK_SET) != 0 || fread(raw[b], 1, want, f) != want) {
+            hk_fail("dd-unit-short-read", "block at %d: %d descriptors are not all in the file", (int)ublk[b].myoff, ublk[b].ndds);
+            fclose(f); return;
+        }
+        /* what the library wrote for the records it held in memory at the close */
+        printf("T dd ublk enc "); print_dds(ublk[b].dd, ublk[b].ndds); printf(" => "); hk_hex(raw[b], want); printf("\n");
+        n_ublk_lines++;
+    }
+    fclose(f);
+    int32 id = Hopen(fname, DFACC_READ, 0);
+    if (id == FAIL) return; /* the directory part of the case reports that */
+    filerec_t *fr = (filerec_t *)HAatom_object(id);
+    int nb = 0, bi = 0;
+    for (ddblock_t *b = fr->ddhead; b; b = b->next) nb++;
+    for (ddblock_t *b = fr->ddhead; b && bi < n_ublk; b = b->next) {
+        if (b->myoffset != ublk[bi].myoff || b->ndds != ublk[bi].ndds) continue;
+        /* what HTPstart made of the bytes; maxref only when this block is the whole directory */
+        printf("T dd ublk dec %d ", nb == 1 ? 0 : -1); hk_hex(raw[bi], (size_t)b->ndds * 12); printf(" => "); print_dds(b->ddlist, b->ndds);
+        printf(" %d\n", nb == 1 ? (int)fr->maxref : -1);
+        n_ublk_lines++; bi++;
+    }
+    /* Hnewref at and across the limit: refs in use = the refs of the live descriptors */
+    static uint8 used[65536];
+    static uint16 tags[8];
+    int nlive = 0, ntags = 0;
+    memset(used, 0, sizeof used);
+    for (ddblock_t *b = fr->ddhead; b; b = b->next)
+        for (int i = 0; i < b->ndds; i++) if (b->ddlist[i].tag != DFTAG_NULL) {
+            nlive++; used[b->ddlist[i].ref] = 1;
+            uint16 bt = base_of(b->ddlist[i].tag);
+            int known = 0;
+            for (int q = 0; q < ntags; q++) if (tags[q] == bt) known = 1;
+            if (!known && ntags < 8) tags[ntags++] = bt;
+        }
+    if (nlive <= 400) {
+        fr->maxref = (uint16)(hk_chance(50) ? 65533 : 65534);
+        for (int c = 0; c < 4; c++) {
+            unsigned before = fr->maxref;
+            uint16 r = Hnewref(id);
+            printf("T dd uref newref %u ", before);
+            int first = 1;
+            for (unsigned q = 0; q < 65536; q++) if (used[q]) { printf("%s%u", first ? "" : ",", q); first = 0; }
+            if (first) printf("-");
+            printf(" => %u %u\n", (unsigned)r, (unsigned)fr->maxref);
+            n_uref_lines++;
+        }
+        for (int q = 0; q <= ntags && q < 8; q++) {
+            uint16 tg = q < ntags ? (hk_chance(30) ? special_of(tags[q]) : tags[q]) : (uint16)hk_range(20000, 30000); /* the last one: a tag without node */
+            if (tg == DFTAG_NULL) tg = tags[q];
+            uint16 r = Htagnewref(id, tg);
+            printf("T dd uref tagnewref %u ", (unsigned)tg);
+            int first = 1;
+            for (ddblock_t *b = fr->ddhead; b; b = b->next)
+                for (int i = 0; i < b->ndds; i++) if (b->ddlist[i].tag != DFTAG_NULL && base_of(b->ddlist[i].tag) == base_of(tg)) {
+                    printf("%s%u", first ? "" : ",", (unsigned)b->ddlist[i].ref); first = 0;
+                }
+            if (first) printf("-");
+            printf(" => %u\n", (unsigned)r);
+            n_uref_lines++;
+        }
+    }
+    Hclose(id);
+}
+
 static void run_case(int k)
 {
     if (!probed) { probed = 1; f5_present = probe(5); f17_present = probe(17); printf("INFO f5_present=%d f17_present=%d\n", f5_present, f17_present); }
@@ -773,8 +878,13 @@ static void run_case(int k)
         if (!dead) { t_all(); check_enum(0, 0, DF_FORWARD, 1); }
     }
 done:
+    n_ublk = 0;
+    if (fid != FAIL && !dead) unit_snapshot();
     if (fid != FAIL) Hclose(fid);
     fid = FAIL;
+    if (!dead && !allow_f17) unit_phase(); /* a file with a duplicated descriptor (F17 scenario) cannot be opened again */
+    hk_stat("ublk_lines", n_ublk_lines); hk_stat("uref_lines", n_uref_lines);
+    n_ublk_lines = n_uref_lines = 0;
     bv_phase(); /* after everything else, so that the random history of the directory part of a case is what it was before */
     hk_stat("bv_ops", n_bvops); hk_stat("bv_grow", n_bvgrow); hk_stat("bv_find_ext", n_bvext);
     n_bvops = n_bvgrow = n_bvext = 0;
